@@ -26,3 +26,15 @@ def classify(prop: str, f: Failure) -> str | None:
         except Exception:
             continue
     return None
+
+
+# ---------------------------------------------------------------------------------- C08 -------
+@finding("C08", "wildcard-overflow-entry-aborts-list")
+def _c08_overflow(f: Failure) -> bool:
+    """A SAN entry whose left-most label holds >= 2 wildcards makes match_hostname raise at once, so an
+    exactly matching entry listed *after* it is never consulted."""
+    c, o = f["case"], f["observed"]
+    if f["kind"] != "must-accept-violated" or c.get("what") != "name":
+        return False
+    overflow_at = [i for i, (t, v) in enumerate(c["san"]) if t == "DNS" and v.split(".")[0].count("*") >= 2]
+    return bool(overflow_at) and o.get("got") == "reject" and o.get("detail") == "CertificateError" and o.get("too_many_wildcards") is True
